@@ -478,6 +478,89 @@ class CoverageCollector:
         mon.free_tool_id(tool)
 
 
+class GlobalState:
+    """Snapshot of the module-level mutable state of the library: containers bound to module globals
+    or held by library objects bound to module globals (class attributes included), a few levels deep.
+    Two snapshots are compared slot by slot; only slots present in both count (a slot that merely appears
+    is a cache being filled, a slot whose value is replaced is state shared by every caller)."""
+
+    MAX_DEPTH = 4
+    MAX_ITEMS = 400
+
+    @classmethod
+    def snapshot(cls):
+        snap = {}
+        for modname in sorted(sys.modules):
+            if not (modname == "xsdata" or modname.startswith("xsdata.")):
+                continue
+            mod = sys.modules.get(modname)
+            if mod is None:
+                continue
+            for name, value in sorted(vars(mod).items()):
+                if name.startswith("__") or isinstance(value, type(sys)):
+                    continue
+                if isinstance(value, type):
+                    if getattr(value, "__module__", None) != modname:
+                        continue
+                    for attr, v in sorted(vars(value).items(), key=lambda kv: kv[0]):
+                        if not attr.startswith("__") and isinstance(v, (list, dict, set)):
+                            cls._walk((modname, f"{name}.{attr}"), v, snap, 0, set())
+                    continue
+                if callable(value) and not isinstance(value, (list, dict, set)) and not cls._library_object(value):
+                    continue
+                cls._walk((modname, name), value, snap, 0, set())
+        return snap
+
+    @staticmethod
+    def _library_object(value):
+        t = type(value)
+        return (getattr(t, "__module__", "") or "").startswith("xsdata") and not isinstance(value, type)
+
+    @classmethod
+    def _token(cls, value):
+        if value is None or isinstance(value, (bool, int, float, str, bytes)):
+            return repr(value)[:80]
+        if isinstance(value, (list, tuple, set, frozenset, dict)):
+            return f"<{type(value).__name__} len={len(value)}>"
+        return f"<{type(value).__module__}.{type(value).__qualname__}>"
+
+    @classmethod
+    def _walk(cls, path, value, snap, depth, seen):
+        snap[path] = cls._token(value)
+        if depth >= cls.MAX_DEPTH or id(value) in seen:
+            return
+        if isinstance(value, (list, tuple)):
+            seen.add(id(value))
+            for i, v in enumerate(value[: cls.MAX_ITEMS]):
+                cls._walk(path + (i,), v, snap, depth + 1, seen)
+        elif isinstance(value, dict):
+            seen.add(id(value))
+            for k, v in list(value.items())[: cls.MAX_ITEMS]:
+                if isinstance(k, (str, int, bool, type(None), bytes, float)):
+                    kk = repr(k)
+                elif isinstance(k, type):
+                    kk = f"{k.__module__}.{k.__qualname__}"
+                else:
+                    continue
+                cls._walk(path + (kk,), v, snap, depth + 1, seen)
+        elif isinstance(value, (set, frozenset)):
+            snap[path] = f"<set {sorted(repr(x)[:40] for x in list(value)[: cls.MAX_ITEMS])}>"
+        elif cls._library_object(value):
+            seen.add(id(value))
+            attrs = dict(getattr(value, "__dict__", {}) or {})
+            for klass in type(value).__mro__:
+                for slot in getattr(klass, "__slots__", ()) or ():
+                    if isinstance(slot, str) and hasattr(value, slot):
+                        attrs.setdefault(slot, getattr(value, slot))
+            for k, v in sorted(attrs.items()):
+                cls._walk(path + (f".{k}",), v, snap, depth + 1, seen)
+
+    @staticmethod
+    def replaced(before, after):
+        """Slots present in both snapshots whose value differs: [(module, global name, path...)]."""
+        return sorted((p for p, tok in after.items() if p in before and before[p] != tok), key=repr)
+
+
 class WriteRecorder:
     """Records where attributes of long-lived library objects are assigned after construction.
 
